@@ -200,3 +200,17 @@ package airgapped
 //@   modifies []byte
 //@   modifies $ciphers
 //@   ensures[C04.key.nocache] true
+
+// secrets of the airgapped machine (long-term key, password-derived key input, seed, decrypted records, BLS share,
+// plain deals) may reach only the listed consumers (judgement over go/ssa, one obligation per function; see flow.go)
+//@ secretflow[C04.flow] dc4bc/airgapped dc4bc/dkg
+//@   : .Machine.secKey .Machine.encryptionKey .Machine.baseSeed .DKG.secKey .BLSKeyring.Share .blsKeyringJSON.Share
+//@     .DistKeyShare.Share? .PriShare.V? .Deal.SecShare?
+//@     decrypt PriShare Deals scrypt.Key BLSKeyring).Bytes
+//@   -> scrypt.Key aes.NewCipher Seal NewBLS12381Suite tbls.Sign ecies.Encrypt ecies.Decrypt= frand.NewCustom NewDistKeyGenerator
+//@     GenerateKeys>Mul LoadKeysFromDB>UnmarshalBinary SaveKeysToDB>MarshalBinary=
+//@     handleStateDkgCommitsAwaitConfirmations>sha256.Sum256=
+//@     handleStateDkgDealsAwaitConfirmations>json.Marshal= handleStateDkgResponsesAwaitConfirmations>json.Unmarshal
+//@     BLSKeyring).Bytes>Encode LoadBLSKeyringFromBytes>json.Unmarshal LoadBLSKeyringFromBytes>bytes.NewBuffer=
+//@     LoadBLSKeyringFromBytes>gob.NewDecoder= LoadBLSKeyringFromBytes>Decode
+//@     return:DKG).GetDeals return:DKG).GetSecKey
